@@ -5,7 +5,8 @@ PROP_FILE = 'Properties/C01.v'
 THEOREMS = ['C01_output_atoms_partial', 'C01_optional_paren_sound', 'C01_markup_source_lines',
             'C01_flow_stylist_conserves', 'C01_plain_stylist_conserves', 'C01_list_stylist_conserves', 'C01_chain_printer_conserves', 'C01_chain_builder_attaches_after_a_body', 'C01_chain_stylist_conserves',
             'C01_every_layout_has_the_signature', 'C01_rendered_text_has_the_signature', 'C01_list_printer_signature',
-            'C01_chain_printer_signature', 'C01_plain_printer_signature']
+            'C01_chain_printer_signature', 'C01_plain_printer_signature',
+            'C01_converter_conserves_signature', 'C01_in_scope_every_layout_conserves']
 
 
 def sig_certificate(ck, recs):
@@ -17,6 +18,11 @@ def sig_certificate(ck, recs):
     ok = [r for r in recs if r.get("k") and r["k"].get("impl") == "ok" and r["reorder"] == 0]
     inscope = [r for r in ok if r["k"].get("impl_sig") is not None]
     bad = [r for r in inscope if r["k"].get("impl_sig") is False]
+    insc = [r for r in ok if r["k"].get("in_sc")]
+    ck.extra["conservation_theorem_scope"] = {"accepted_cases_reorder_off": len(ok), "trees_in_sc": len(insc),
+                                              "of_which_certificate_failed": len([r for r in insc if r["k"].get("impl_sig") is False])}
+    ck.oblige("conservation theorem vs certificate: no tree in the theorem's scope `sc` fails the signature certificate (%d trees in scope)" % len(insc),
+              not [r for r in insc if r["k"].get("impl_sig") is False and r["k"].get("doc_eq")], "")
     ck.extra["sig_certificate_model_docs_failed"] = len([r for r in ok if r["k"].get("model_sig") is False])
     ck.extra["sig_certificate"] = {"accepted_cases_reorder_off": len(ok), "in_scope": len(inscope), "failed": len(bad)}
     ck.oblige("signature certificate: the implementation's document in each of %d in-scope cases carries the source tree's signature on every layout" % len(inscope),
